@@ -104,7 +104,7 @@ def _bs_case(check: Check, bs, degree, inner, lb, ub, ii, mode, tmo, state=None,
     def rep(model, lab):
         p = {"kind": "c12_bs", "cfg": cfg, "x": model_value(model, X)}
         bad = replays.run(p)
-        return (f"bs(degree={degree},extrapolation={mode}{','+label.split()[0] if label else ''})", bad, p) if bad else None
+        return (f"bs(degree={degree},extrapolation={mode}{',knot-at-bound' if label == 'knot-at-bound' else ''})", bad, p) if bad else None
 
     def on_exception(e, pc):
         try:
